@@ -284,6 +284,138 @@ def cqm_perturbations(r, c):
     return out
 
 
+def all_field_perturbations(c):
+    """EVERY single-field change of a CQM descriptor, systematically (no sampling): for the objective and for every constraint
+    every bias (offset, each linear bias, each quadratic bias, each interaction dropped), for every constraint both other
+    senses, the rhs, its label, its presence; for every variable its type (both other types; a used variable consistently in
+    every expression) and, where no expression uses it, its label and presence; one more unused variable.
+    Returns (field class, descriptor) pairs; every one differs from `c` in exactly that field."""
+    out = []
+    d = F(1, 4)
+
+    def poly_fields(s, put, where):
+        t = cp(s); t['off'] += d; put(t, where + ' offset')
+        for v in s['lin']:
+            t = cp(s); t['lin'][v] += d; put(t, where + ' linear bias')
+        for k in s['quad']:
+            t = cp(s); t['quad'][k] += d; put(t, where + ' quadratic bias')
+            t = cp(s); del t['quad'][k]; put(t, where + ' interaction dropped')
+            if s['quad'][k] != 0:
+                t = cp(s); t['quad'][k] = F(0); put(t, where + ' quadratic bias set to zero (interaction kept)')
+
+    def put_obj(t, name):
+        n = ccp(c); n['obj'] = t; out.append((name, n))
+    poly_fields(c['obj'], put_obj, 'objective')
+    for l, (sn, rhs, s_) in c['cons'].items():
+        def put_con(t, name, l=l, sn=sn, rhs=rhs):
+            n = ccp(c); n['cons'][l] = (sn, rhs, t); out.append((name, n))
+        poly_fields(s_, put_con, 'lhs')
+        for sn2 in ('<=', '>=', '=='):
+            if sn2 != sn:
+                n = ccp(c); n['cons'][l] = (sn2, rhs, cp(s_)); out.append(('sense', n))
+        for dr in (F(1, 2), -F(1, 4)):
+            n = ccp(c); n['cons'][l] = (sn, rhs + dr, cp(s_)); out.append(('rhs', n))
+        n = ccp(c); n['cons'] = {(('renamed', 1) if k == l else k): v for k, v in c['cons'].items()}; out.append(('constraint label', n))
+        n = ccp(c); del n['cons'][l]; out.append(('constraint removed', n))
+    un = unused_vars(c)
+    exprs = [c['obj']] + [x[2] for x in c['cons'].values()]
+    fresh = [x for x in FRESH + ['zz'] if x not in c['vars']]
+    for v, vt in c['vars'].items():
+        selfloop = any(frozenset((v,)) in s_['quad'] for s_ in exprs)
+        for vt2 in ('BINARY', 'SPIN', 'INTEGER'):
+            if vt2 == vt or selfloop:
+                continue
+            n = ccp(c); n['vars'][v] = vt2
+            for s_ in [n['obj']] + [x[2] for x in n['cons'].values()]:
+                s_['vars'] = [(a, vt2 if a == v else b) for a, b in s_['vars']]
+            out.append(('unused variable type' if v in un else 'used variable type', n))
+        if v in un and fresh:
+            n = ccp(c); n['vars'] = {(fresh[0] if k == v else k): x for k, x in c['vars'].items()}; out.append(('unused variable label', n))
+            n = ccp(c); del n['vars'][v]; out.append(('unused variable removed', n))
+    if fresh:
+        for vt in ('BINARY', 'INTEGER'):
+            n = ccp(c); n['vars'][fresh[-1]] = vt; out.append(('unused variable added', n))
+    return out
+
+
+def cqm_field_sweep(ctx, r, base, lines, expect, meta):
+    """one CQM against every single-field change of it (both argument orders, `is_equal` and `is_almost_equal(places=7)`): always
+    False; against a re-realisation with constraints / variables / terms in another order: True; and — recorded, compared with
+    the model only, not judged (outside the property's list of compared fields) — against a copy that differs only in a soft
+    weight / penalty, a variable bound, or the discrete mark."""
+    c = rand_cspec(r, base)
+    while len(c['cons']) < 2:
+        c2 = rand_cspec(r, base)
+        for l, v in c2['cons'].items():
+            c['cons'].setdefault(l, v)
+    srcA = realise_cqm(r, c)
+    A, _ = build(srcA)
+    a = Obj('cqm', c['obj'], A, srcA, None, c)
+    wa = wire(a)
+
+    def compare(b, tag, want, a=a, wa=wa):
+        wb = wire(b)
+        for x, y, wx, wy in ((a, b, wa, wb), (b, a, wb, wa)):
+            for op, f in (('eq', lambda: x.obj.is_equal(y.obj)), ('aeq', lambda: x.obj.is_almost_equal(y.obj, places=7))):
+                got = call(f)
+                lines.append(f'eq {wx} {wy}' if op == 'eq' else f'aeq 7 {wx} {wy}')
+                expect.append(EXC.get(got, got)); meta.append((op, 'CQM', 'CQM', 'sweep base', tag))
+                ctx.case((op, 7 if op == 'aeq' else None, wx, wy), nontrivial=True)
+                if want is None:
+                    ctx.tick(f'scope (recorded, not judged): {tag} -> {op} {got}')
+                    continue
+                if got != ('T' if want else 'F'):
+                    meth = 'is_equal' if op == 'eq' else 'is_almost_equal'
+                    expr = 'A.is_equal(B)' if op == 'eq' else 'A.is_almost_equal(B, places=7)'
+                    rep = PRE + src_of(x, 'A') + src_of(y, 'B') + f'res = {expr}\nprint(res)\nassert res is {want} or res == {want}, res\n'
+                    ctx.fail('property', f'CQM.{meth}', ('single change: ' + tag) if not want else 'same model, another order',
+                             f'{expr} = {got} for two CQMs that ' + (f'differ in exactly one field ({tag})' if not want else 'differ only in the order of constraints / variables / terms'),
+                             repro=rep, detail=dict(a=x.src, b=y.src))
+
+    # the same model realised again: constraint order, variable order and term order are shuffled by `realise_cqm`
+    srcB = realise_cqm(r, c); B, _ = build(srcB)
+    ctx.tick('sweep: same model, another order')
+    compare(Obj('cqm', c['obj'], B, srcB, None, c), 'same', True)
+    for name, t in all_field_perturbations(c):
+        srcB = realise_cqm(r, t)
+        B, _ = build(srcB)
+        ctx.tick('sweep single change: ' + name)
+        compare(Obj('cqm', t['obj'], B, srcB, None, t), name, False)
+    # WHICH variable an expression carries: two models with the same variable set whose objective / one lhs carries, besides the
+    # common terms, variable u with bias 0 in one model and variable w (bias 0 or not) in the other — same shapes, both labels
+    # known to both models, so only a two-sided comparison of the term maps tells them apart
+    fresh = [x for x in FRESH if x not in c['vars']][:2]
+    if len(fresh) == 2:
+        u, w = fresh
+        for where in ['obj'] + list(c['cons']):
+            P, Q = ccp(c), ccp(c)
+            for X in (P, Q):
+                X['vars'][u] = 'BINARY'; X['vars'][w] = 'BINARY'
+            eP = P['obj'] if where == 'obj' else P['cons'][where][2]
+            eQ = Q['obj'] if where == 'obj' else Q['cons'][where][2]
+            eP['vars'] = list(eP['vars']) + [(u, 'BINARY')]; eP['lin'][u] = F(0)
+            eQ['vars'] = list(eQ['vars']) + [(w, 'BINARY')]; eQ['lin'][w] = F(r.choice([0, 1, -3]), 4)
+            srcP = realise_cqm(r, P); oP, _ = build(srcP)
+            srcQ = realise_cqm(r, Q); oQ, _ = build(srcQ)
+            xP = Obj('cqm', P['obj'], oP, srcP, None, P); xQ = Obj('cqm', Q['obj'], oQ, srcQ, None, Q)
+            ctx.tick('sweep single change: zero-bias variable swapped for another variable of the model (' + ('objective' if where == 'obj' else 'lhs') + ')')
+            compare(xQ, 'zero-bias variable swapped for another variable of the model', False, a=xP, wa=wire(xP))
+    # fields the comparison does not list (weight, penalty, bounds, discrete mark): what the code answers is recorded
+    l = r.choice(list(c['cons']))
+    extra = [('soft weight', f'_o.constraints[{l!r}].lhs.set_weight(3.0)\n'),
+             ('penalty', f'_o.constraints[{l!r}].lhs.set_weight(3.0, penalty="linear")\n')]
+    ints = [v for v, vt in c['vars'].items() if vt == 'INTEGER']
+    if ints:
+        extra.append(('variable bound', f'_o.set_upper_bound({ints[0]!r}, 5)\n'))
+    for tag, more in extra:
+        srcB = srcA + more
+        try:
+            B, _ = build(srcB)
+        except Exception:  # noqa
+            continue
+        compare(Obj('cqm', c['obj'], B, srcB, None, c), tag + ' differs', None)
+
+
 def realise_cqm(r, c):
     vs = list(c['vars'].items()); r.shuffle(vs)
     src = '_o = CQM()\n'
@@ -624,8 +756,10 @@ def run(ctx):
     if not (a.is_equal(b) and a == b and a.is_equal(qa)):
         ctx.fail('property', 'BQM.is_equal', 'variable-free models of different vartype',
                  'two models without variables and with equal offsets do not compare equal', repro=PRE + "assert BQM('SPIN').is_equal(BQM('BINARY'))\n")
-    for _ in range(n):
+    for k_ in range(n):
         one_round(ctx, r, lines, expect, meta)
+        if k_ % 3 == 0:
+            cqm_field_sweep(ctx, r, rand_spec(r), lines, expect, meta)
         if len([f for f in ctx.failures if f['kind'] == 'property']) >= 40:
             break
     got = run_driver('eqdriver', lines)
